@@ -103,6 +103,10 @@ fn one<V: StoredVec<I = usize, T = u32> + Probe>(variant: usize, target_stamp: u
             match r {
                 Ok(()) => {
                     if cur == 0 { return Err(("C16.window".into(), "rollback succeeded below the first commit".into())); }
+                    // C16: a rollback whose change record is missing or truncated fails (length-field faults may still parse)
+                    if cur as u64 == target_stamp && matches!(fault, Fault::Delete | Fault::Truncate(_)) {
+                        return Err(("C16.fault-accepted".into(), format!("rollback from stamp {cur} succeeded although its change record was damaged by {fault:?}")));
+                    }
                     // must be exactly the previous committed state
                     if after != states[cur - 1] {
                         let clause = if states.iter().any(|s| *s == after) { "C16.fault-wrongstate" } else { "C16.fault-uncommitted" };
